@@ -199,30 +199,58 @@ open XcmModel XcmModel.Btls
 
 /-- after the close was seen: receive 0, send/finish EPIPE, for ever -/
 theorem C06_btls_closed_behaviour (s : St) (hs : s.state = .closed) :
-    (∀ cap h r, (receive s cap h r) = (s, .n 0 [], false)) ∧
-    (∀ buf h w, (send s buf h w) = (s, .err EPIPE, false)) ∧
-    (∀ h l, (finish s h l) = (s, .err EPIPE)) := by
+    (∀ cap h w r, (receive s cap h w r) = (s, .n 0 [], false, 0)) ∧
+    (∀ buf h w, (send s buf h w) = (s, .err EPIPE, 0)) ∧
+    (∀ h w l, (finish s h w l) = (s, .err EPIPE, 0)) := by
   have ht : ∀ a, tryFinishHandshake s a = s := tfh_terminal (Or.inl hs)
-  refine ⟨fun cap h r => ?_, fun buf h w => ?_, fun h l => ?_⟩
+  refine ⟨fun cap h w r => ?_, fun buf h w => ?_, fun h w l => ?_⟩
   · simp [receive, ht, hs]
   · simp [send, ht, hs]
   · simp [finish, ht, hs]
 
 /-- after a failure: the same errno from every call, for ever, and no OpenSSL call is made any more -/
 theorem C06_btls_bad_same_errno (s : St) (e : Nat) (hs : s.state = .bad e) :
-    (∀ cap h r, (receive s cap h r) = (s, .err e, false)) ∧
-    (∀ buf h w, (send s buf h w) = (s, .err e, false)) ∧
-    (∀ h l, (finish s h l) = (s, .err e)) := by
+    (∀ cap h w r, (receive s cap h w r) = (s, .err e, false, 0)) ∧
+    (∀ buf h w, (send s buf h w) = (s, .err e, 0)) ∧
+    (∀ h w l, (finish s h w l) = (s, .err e, 0)) := by
   have ht : ∀ a, tryFinishHandshake s a = s := tfh_terminal (Or.inr ⟨e, hs⟩)
-  refine ⟨fun cap h r => ?_, fun buf h w => ?_, fun h l => ?_⟩
+  refine ⟨fun cap h w r => ?_, fun buf h w => ?_, fun h w l => ?_⟩
   · simp [receive, ht, hs]
   · simp [send, ht, hs]
   · simp [finish, ht, hs]
 
+/-- what `try_flush_pending_write` reports is what the state says: an errno iff bad with that errno, EPIPE iff closed -/
+theorem flush_discovers (fuel : Nat) : ∀ (s : St) (ws : List WAns), s.state = .ready →
+    (∀ e, (flushPending fuel s ws).1.state = .bad e → (flushPending fuel s ws).2.1 = some (.err e)) ∧
+    ((flushPending fuel s ws).1.state = .closed → (flushPending fuel s ws).2.1 = some (.err EPIPE)) ∧
+    ((flushPending fuel s ws).2.1 = none → (flushPending fuel s ws).1.state = .ready) := by
+  induction fuel with
+  | zero => intro s ws hr; simp [flushPending, hr]
+  | succ f ih =>
+    intro s ws hr
+    unfold flushPending
+    split
+    · simp [hr]
+    · cases hw : nextW ws with
+      | mk w rest =>
+        cases w with
+        | n k =>
+          simp only
+          have r := ih (flushStep s (max 1 (min k s.pend.length))) rest hr
+          exact r
+        | zero => simp
+        | ev e =>
+          simp only
+          have f := (frame_reset s).trans (frame_pse { s with sslCondition := 0, sslWants := 0 } SENDABLE e)
+          split <;> rename_i h3
+          · simp [h3]
+          · simp [h3]
+          · exact ⟨fun x hx => by simp_all, fun hx => by simp_all, fun hx => by cases hx⟩
+
 /-- the call that discovers the failure reports exactly the errno that becomes sticky (send) -/
-theorem C06_btls_send_discovers (s : St) (buf : Bytes) (h : HAns) (w : WAns) :
-    (∀ e, (send s buf h w).1.state = .bad e → (send s buf h w).2.1 = .err e) ∧
-    ((send s buf h w).1.state = .closed → (send s buf h w).2.1 = .err EPIPE) := by
+theorem C06_btls_send_discovers (s : St) (buf : Bytes) (h : HAns) (ws : List WAns) :
+    (∀ e, (send s buf h ws).1.state = .bad e → (send s buf h ws).2.1 = .err e) ∧
+    ((send s buf h ws).1.state = .closed → (send s buf h ws).2.1 = .err EPIPE) := by
   unfold send
   generalize tryFinishHandshake s h = s1
   simp only
@@ -233,20 +261,37 @@ theorem C06_btls_send_discovers (s : St) (buf : Bytes) (h : HAns) (w : WAns) :
   · rename_i hs
     split
     · exact ⟨fun e hb => by simp [hs] at hb, fun hb => by simp [hs] at hb⟩
-    · cases w with
-      | n k => exact ⟨fun e hb => by simp [hs] at hb, fun hb => by simp [hs] at hb⟩
-      | zero => exact ⟨fun e hb => by simp at hb, fun _ => rfl⟩
-      | ev ev =>
-        simp only
-        split <;> rename_i h3
-        · exact ⟨fun e hb => by simp [h3] at hb, fun _ => rfl⟩
-        · exact ⟨fun e hb => by simp only [h3] at hb; cases hb; rfl, fun hb => by simp [h3] at hb⟩
-        · exact ⟨fun e hb => by simp_all, fun hb => by simp_all⟩
+    · have fd := flush_discovers (s1.pend.length + 1) s1 ws hs
+      cases hf : flushPending (s1.pend.length + 1) s1 ws with
+      | mk sf rest3 =>
+        obtain ⟨fr, rest, nf⟩ := rest3
+        rw [hf] at fd
+        simp only at fd ⊢
+        cases fr with
+        | some r =>
+          refine ⟨fun e hb => ?_, fun hb => ?_⟩
+          · have := fd.1 e hb; simp only [Option.some.injEq] at this; exact this
+          · have := fd.2.1 hb; simp only [Option.some.injEq] at this; exact this
+        | none =>
+          have hsr := fd.2.2 rfl
+          simp only
+          cases hw : nextW rest with
+          | mk w _ =>
+            cases w with
+            | n k => exact ⟨fun e hb => by simp [hsr] at hb, fun hb => by simp [hsr] at hb⟩
+            | zero => exact ⟨fun e hb => by simp at hb, fun _ => rfl⟩
+            | ev ev =>
+              simp only
+              split <;> rename_i h3
+              · exact ⟨fun e hb => by simp [h3] at hb, fun _ => rfl⟩
+              · exact ⟨fun e hb => by simp only [h3] at hb; cases hb; rfl, fun hb => by simp [h3] at hb⟩
+              · exact ⟨fun e hb => by simp_all, fun hb => by simp_all⟩
 
-/-- ... (receive): a failure is reported with its errno, a close as 0 -/
-theorem C06_btls_receive_discovers (s : St) (cap : Nat) (h : HAns) (r : RAns) :
-    (∀ e, (receive s cap h r).1.state = .bad e → (receive s cap h r).2.1 = .err e) ∧
-    ((receive s cap h r).1.state = .closed → (receive s cap h r).2.1 = .n 0 []) := by
+/-- ... (receive): a failure is reported with its errno, a close as 0 - whether the flush of retained output or the
+read itself met it -/
+theorem C06_btls_receive_discovers (s : St) (cap : Nat) (h : HAns) (ws : List WAns) (r : RAns) :
+    (∀ e, (receive s cap h ws r).1.state = .bad e → (receive s cap h ws r).2.1 = .err e) ∧
+    ((receive s cap h ws r).1.state = .closed → (receive s cap h ws r).2.1 = .n 0 []) := by
   unfold receive
   generalize tryFinishHandshake s h = s1
   simp only
@@ -255,29 +300,59 @@ theorem C06_btls_receive_discovers (s : St) (cap : Nat) (h : HAns) (r : RAns) :
   · rename_i hs; exact ⟨fun e hb => by simp [hs] at hb, fun _ => rfl⟩
   · rename_i hs; exact ⟨fun e hb => by simp [hs] at hb, fun hb => by simp [hs] at hb⟩
   · rename_i hs
-    cases r with
-    | data bs =>
-      simp only
+    have fs := flush_state (s1.pend.length + 1) s1 ws hs
+    cases hf : flushPending (s1.pend.length + 1) s1 ws with
+    | mk sf rest3 =>
+      obtain ⟨fr, rest, nf⟩ := rest3
+      rw [hf] at fs
+      simp only at fs ⊢
       split
-      · exact ⟨fun e hb => by simp [hs] at hb, fun hb => by simp [hs] at hb⟩
-      · exact ⟨fun e hb => by simp [hs] at hb, fun hb => by simp [hs] at hb⟩
-    | ev ev =>
-      simp only
-      split <;> rename_i h3
-      · exact ⟨fun e hb => by simp [h3] at hb, fun _ => rfl⟩
-      · exact ⟨fun e hb => by simp only [h3] at hb; cases hb; rfl, fun hb => by simp [h3] at hb⟩
-      · exact ⟨fun e hb => by simp_all, fun hb => by simp_all⟩
+      · rename_i e' hs'; exact ⟨fun e hb => by simp only [hs'] at hb; cases hb; rfl, fun hb => by simp [hs'] at hb⟩
+      · rename_i hs'; exact ⟨fun e hb => by simp [hs'] at hb, fun _ => rfl⟩
+      · rename_i hnb hnc
+        have hsr : sf.state = .ready := by
+          rcases fs with fs | fs | ⟨x, fs⟩
+          · exact fs
+          · exact absurd fs hnc
+          · exact absurd fs (hnb x)
+        simp only
+        unfold readStep
+        cases r with
+        | data bs =>
+          simp only
+          split
+          · exact ⟨fun e hb => by simp [hsr] at hb, fun hb => by simp [hsr] at hb⟩
+          · exact ⟨fun e hb => by simp [hsr] at hb, fun hb => by simp [hsr] at hb⟩
+        | ev ev =>
+          simp only
+          split <;> rename_i h3
+          · exact ⟨fun e hb => by simp [h3] at hb, fun _ => rfl⟩
+          · exact ⟨fun e hb => by simp only [h3] at hb; cases hb; rfl, fun hb => by simp [h3] at hb⟩
+          · exact ⟨fun e hb => by simp_all, fun hb => by simp_all⟩
 
 /-- ... (finish) -/
-theorem C06_btls_finish_discovers (s : St) (h : HAns) (l : Option Nat) :
-    (∀ e, (finish s h l).1.state = .bad e → (finish s h l).2 = .err e) ∧
-    ((finish s h l).1.state = .closed → (finish s h l).2 = .err EPIPE) := by
+theorem C06_btls_finish_discovers (s : St) (h : HAns) (ws : List WAns) (l : Option Nat) :
+    (∀ e, (finish s h ws l).1.state = .bad e → (finish s h ws l).2.1 = .err e) ∧
+    ((finish s h ws l).1.state = .closed → (finish s h ws l).2.1 = .err EPIPE) := by
   unfold finish
   generalize tryFinishHandshake s h = s1
   simp only
   split <;> rename_i hs
   · exact ⟨fun e hb => by simp [hs] at hb, fun hb => by simp [hs] at hb⟩
-  · exact ⟨fun e hb => by simp [hs] at hb, fun hb => by simp [hs] at hb⟩
+  · have fd := flush_discovers (s1.pend.length + 1) s1 ws hs
+    cases hf : flushPending (s1.pend.length + 1) s1 ws with
+    | mk sf rest3 =>
+      obtain ⟨fr, rest, nf⟩ := rest3
+      rw [hf] at fd
+      simp only at fd ⊢
+      cases fr with
+      | some r =>
+        refine ⟨fun e hb => ?_, fun hb => ?_⟩
+        · have := fd.1 e hb; simp only [Option.some.injEq] at this; exact this
+        · have := fd.2.1 hb; simp only [Option.some.injEq] at this; exact this
+      | none =>
+        have hsr := fd.2.2 rfl
+        exact ⟨fun e hb => by simp [hsr] at hb, fun hb => by simp [hsr] at hb⟩
   · exact ⟨fun e hb => by simp only [hs] at hb; cases hb; rfl, fun hb => by simp [hs] at hb⟩
   · exact ⟨fun e hb => by simp [hs] at hb, fun _ => rfl⟩
 
